@@ -160,6 +160,14 @@ func (e *Exec) builtinAppend(fr *frame, st *State, c *ssa.CallCommon, s, t Val, 
 				k, e.elemAt(nht, el, res, "(+ "+slLen(s.T)+" j)"), tAt("j"), tAt("j"))))
 		}
 	}
+	if e.uses("ELEMPTR") && !isStr {
+		// element pointers read the backing array directly: state the contents
+		// of the result also at array level
+		e.ctx.assume(imp(st.pc, fmt.Sprintf("(forall ((p Int)) (! (=> (and (<= (+ %s %s) p) (< p (+ %s %s))) (= (select %s p) %s)) :pattern ((select %s p))))",
+			slOff(res), slLen(s.T), slOff(res), n, arr, tAt("(- (- p "+slOff(res)+") "+slLen(s.T)+")"), arr)))
+		e.ctx.assume(imp(st.pc, fmt.Sprintf("(forall ((p Int)) (! (=> (and (<= %s p) (< p (+ %s %s))) (= (select %s p) %s)) :pattern ((select %s p))))",
+			slOff(res), slOff(res), slLen(s.T), arr, e.elemAt(ht, el, s.T, "(- p "+slOff(res)+")"), arr)))
+	}
 	// in place: indices outside the appended window keep their contents
 	e.ctx.assume(imp(and(st.pc, fits), fmt.Sprintf("(forall ((i Int)) (! (=> (or (< i (+ %s %s)) (>= i (+ %s %s))) (= (select %s i) (select %s i))) :pattern ((select %s i))))",
 		slOff(s.T), slLen(s.T), slOff(s.T), n, arr, olds, arr)))
